@@ -194,9 +194,15 @@ def gen(rng, tier, ctx):
     elif kind == "opt_in_or":
         # a path across an Optional reference as the right side of an or_ whose left side holds for every holder that
         # has no such reference: the rows without the reference have to stay
-        q["root"], q["vars"], q["quant"] = "Holder", {"x": "Holder"}, "an"
-        q["cond"] = ["or", ["cmp", ">=", ["path", "x", "extra"], ["lit", 0]] if rng.random() < 0.3 else ["in", ["path", "x", "uid"], ["lit", "HOLDERS_WITHOUT_OTHER"]],
-                     ["cmp", rng.choice(CMP), ["path", "x", "other.n"], ["lit", rng.randint(0, 4)]]]
+        if rng.random() < 0.4:
+            # the Optional reference is the SECOND hop of the path
+            q["root"], q["vars"], q["quant"] = "Top", {"x": "Top"}, "an"
+            q["cond"] = ["or", ["in", ["path", "x", "uid"], ["lit", "TOPS_WHOSE_HOLDER_HAS_NO_OTHER"]],
+                         ["cmp", rng.choice(CMP), ["path", "x", "holder.other.n"], ["lit", rng.randint(0, 4)]]]
+        else:
+            q["root"], q["vars"], q["quant"] = "Holder", {"x": "Holder"}, "an"
+            q["cond"] = ["or", ["cmp", ">=", ["path", "x", "extra"], ["lit", 0]] if rng.random() < 0.3 else ["in", ["path", "x", "uid"], ["lit", "HOLDERS_WITHOUT_OTHER"]],
+                         ["cmp", rng.choice(CMP), ["path", "x", "other.n"], ["lit", rng.randint(0, 4)]]]
     elif kind == "set_of":
         # the selection is a set_of: there is no entity to fetch
         q["cond"] = gen_cond(rng, "x", cls, world, 1)
@@ -281,6 +287,8 @@ def build_query(q, objs, sm):
     def bt(t):
         if t[0] == "lit" and t[1] == "HOLDERS_WITHOUT_OTHER":
             return [h.uid for h in objs["holders"] if h.other is None]
+        if t[0] == "lit" and t[1] == "TOPS_WHOSE_HOLDER_HAS_NO_OTHER":
+            return [t_.uid for t_ in objs["tops"] if t_.holder.other is None]
         if t[0] == "lit":
             if q.get("collection") in ("set", "tuple") and isinstance(t[1], list):
                 return set(t[1]) if q["collection"] == "set" else tuple(t[1])
